@@ -198,7 +198,7 @@ func getFB() (*fbFixture, error) {
 			_ = bastion.FeedBastion(context.Background(), bastion.Config{Addr: stub.Addr, Logs: logs, BastionKey: ed25519.NewKeyFromSeed(seed[:]),
 				WitnessVerifier: vlib.WitnessKey{K: wk, Kind: vlib.WKCosig}.Verifier(), Limits: bastion.RequestLimits{TotalPerSecond: rate.Limit(1e9)}}, f.w)
 		}()
-		if err := stub.WaitConnected(40 * time.Second); err != nil {
+		if err := stub.WaitConnected(120 * time.Second); err != nil {
 			fbErr = err
 			return
 		}
